@@ -749,7 +749,8 @@ Section Roundtrip.
   Hypothesis FOK : litfn_chain_ok fch = true.
   Hypothesis VOK : tovalue_chain_ok vch = true.
 
-  (** value_roundtrip: a supported value in a column whose type it fits comes back as the promised value *)
+  (** value_roundtrip for ONE cell evaluated on its own (auxiliary: it ignores that DuckDB gives all members of a
+      column / list one common type; the statements of the property file use [column_roundtrip] below) *)
   Theorem value_roundtrip : forall v t,
     supported v = true -> fits v t = true ->
     pipeline eleaf cleaf pleaf lch fch vch (Some t) v = Some (expected v).
@@ -970,7 +971,7 @@ Section Column.
   Variable eleaf : lit -> option dbval.
   Variable cleaf : sty -> dbval -> option dbval.
   Variable pleaf : dbval -> pyval.
-  Variable round32 : fval -> fval.      (* environment: the double that equals the float32 nearest to f *)
+  Variable round32 : fval -> fval.      (* environment: DuckDB's CAST of the DECIMAL numeral of f to REAL, read back as a double (a float32 near f, not always the nearest); no hypothesis is needed about it *)
   Variable lch : chain lact.
   Variable fch : chain fact.
   Variable vch : chain vact.
@@ -1501,8 +1502,8 @@ Section ColumnUntyped.
   Qed.
 End ColumnUntyped.
 
-(** reference float32 rounding: a table supplied with the case (CPython/IEEE fact: bits -> bits of the double
-    equal to the nearest float32, and whether its repr uses an exponent) *)
+(** reference REAL rounding: a table supplied with the case (observed on a raw DuckDB connection: bits of f ->
+    bits of CAST(CAST(<numeral of f> AS REAL) AS DOUBLE), and whether its repr uses an exponent) *)
 Definition ref_round32 (tbl : list (Z * (Z * bool))) (f : fval) : fval :=
   match f with
   | FFin b _ => match find (fun e => Z.eqb (fst e) b) tbl with
